@@ -293,12 +293,17 @@ func c06Scenarios(tier string) []engine.Scenario {
 				for _, np := range c06NewPasswords {
 					if sec := w.Truth.Newest("rtok", U1, false); sec != nil {
 						tok := sec.Val
-						a = append(a, flows.A(fmt.Sprintf("recover-end(B1,rtok:live,new=%s)", np.note), func(s *world.Stack, w *world.World) world.Req {
-							w.Truth.Flags["c06:pwnote:"+U1] = np.note
-							r := flows.RecoverEnd(s, "B1", tok, np.val)
-							r.Tag.Note = np.note
-							return r
-						}, ""))
+						for _, b := range bothBrowsers {
+							if b == "B2" && np.note != "last-byte-differs" {
+								continue // from the other browser (possibly logged in as the bystander): one password class
+							}
+							a = append(a, flows.A(fmt.Sprintf("recover-end(%s,rtok:live,new=%s)", b, np.note), func(s *world.Stack, w *world.World) world.Req {
+								w.Truth.Flags["c06:pwnote:"+U1] = np.note
+								r := flows.RecoverEnd(s, b, tok, np.val)
+								r.Tag.Note = np.note
+								return r
+							}, ""))
+						}
 					}
 					a = append(a, c06UpdatePassword(U1, np))
 				}
